@@ -528,9 +528,8 @@ theorem bintIsZero_iff {x : BInt} (hx : WF x) : bintIsZero x = true ↔ x.val = 
     rw [MAXI_eq] at hv
     cases neg <;> simp [bintIsZero] <;> omega
 
-/-- `fiBIntPowerMod`, except for exponent 0 with modulus ±1 (where the C code answers 1). -/
-theorem fiBIntPowerMod_spec {a b c : BInt} (ha : WF a) (hb : WF b) (hc : WF c) (hc0 : c.val ≠ 0) (hb0 : 0 ≤ b.val)
-    (hex : ¬ (b.val = 0 ∧ c.val.natAbs = 1)) :
+/-- `fiBIntPowerMod`: `a^b` reduced modulo `c`, the sign that of `a^b`. -/
+theorem fiBIntPowerMod_spec {a b c : BInt} (ha : WF a) (hb : WF b) (hc : WF c) (hc0 : c.val ≠ 0) (hb0 : 0 ≤ b.val) :
     (fiBIntPowerMod a b c).val = (a.val ^ b.val.toNat).tmod c.val ∧ WF (fiBIntPowerMod a b c) := by
   have hM := MAXI_eq
   have hm := MINI_eq
@@ -540,13 +539,11 @@ theorem fiBIntPowerMod_spec {a b c : BInt} (ha : WF a) (hb : WF b) (hc : WF c) (
   · rw [if_pos h0]
     have hb' := hbz.mp h0
     rw [hb']
-    refine ⟨?_, WF_imm_of (by omega) (by omega)⟩
-    simp only [val_imm, Int.toNat_zero, Int.pow_zero]
-    have hc1 : c.val.natAbs ≠ 1 := fun h => hex ⟨hb', h⟩
-    rw [tmod_signs, if_neg (by omega)]
-    have : (1:Int).natAbs % c.val.natAbs = 1 := by
-      apply Nat.mod_eq_of_lt; simp; omega
-    rw [this]; rfl
+    have h1 : WF (.imm 1) := WF_imm_of (by omega) (by omega)
+    have hmd := bintMod_spec h1 hc hc0
+    refine ⟨?_, hmd.2⟩
+    rw [hmd.1]
+    simp
   · rw [if_neg h0]
     simp only
     have hbpos : 0 < b.val := by
